@@ -131,7 +131,7 @@ void _ZN5QXmpp7Private18StreamErrorElement19streamErrorToStringENS_11StreamError
 void _ZN9QtPrivate12argToQStringE11QStringViewmPPKNS_7ArgBaseE(char *ret, uint64_t n, char *p, uint64_t nargs, char *args) { *(QAD**)ret = SHARED_NULL; }
 void _ZNK7QString3argERKS_i5QChar(char *ret, char *self, char *a, uint32_t w, uint16_t fill) { *(QAD**)ret = qad_ref(*(QAD**)self); }
 /* QXmppUtils::generateStanzaUuid (real: QUuid::createUuid, random): an arbitrary non-empty id */
-void _ZN10QXmppUtils18generateStanzaUuidEv(char *ret) { vp_sym_string_nonempty(ret, 2); }
+void _ZN10QXmppUtils18generateStanzaUuidEv(char *ret) { QAD *d = qs_new(2, 2); SD(d)[0] = vp_u16(); SD(d)[1] = vp_u16(); qs_seal(d, 0); *(QAD**)ret = d; }   /* 2 arbitrary units (length known to symex) */
 /* QMap<unsigned, QXmppPacket> (store of unacknowledged stanzas in StreamAckManager): class-level model "always empty" - the accounting of
    unacknowledged stanzas is C09's subject; any operation that would fill or walk a non-empty store is left to the real inline code on a
    null representation and is flagged (pointer check) if reached */
